@@ -112,14 +112,20 @@ func (pool *TxPool) AddTxs(txs types.Transactions) int {
 
 /* 本节点出块时，从交易池中取出交易进行打包，但并不从交易池中删除 */
 func (pool *TxPool) GetTxs(time uint32, size int) types.Transactions {
-	result := make([]*types.Transaction, 0, size)
+	// size comes from the caller (e.g. the RPC GetPendingTx): check it before allocating
 	if size <= 0 {
-		return result
+		return make([]*types.Transaction, 0)
 	}
 
 	pool.RW.Lock()
 	defer pool.RW.Unlock()
 
+	// never reserve more than the pool can hand out
+	capacity := size
+	if capacity > len(pool.txs) {
+		capacity = len(pool.txs)
+	}
+	result := make([]*types.Transaction, 0, capacity)
 	timeoutCount := 0
 	for _, tx := range pool.txs {
 		if tx == nil {
